@@ -298,6 +298,20 @@ impl Sys {
                 _ => None,
             })
             .collect();
+        if self.m.transient_pending && self.w.wire.borrow().read_err_once.is_none() {
+            self.m.transient_pending = false;
+            let returned = self
+                .w
+                .obs_since(self.mark)
+                .iter()
+                .any(|o| matches!(o, Ob::Ctx { cmd, .. } if *cmd == "run" || *cmd == "connect" || *cmd == "authorize"));
+            if returned {
+                self.m.read_err = true;
+                self.m.input_arrived();
+            } else {
+                self.m.hits.push("transient-error-survived");
+            }
+        }
         self.m.observed_run_return = self
             .w
             .obs_since(self.mark)
@@ -676,21 +690,10 @@ impl Sys {
                 // is not legitimate is to sit there without a wakeup - that shows as unread input at
                 // the next delivery.
                 let k = self.w.wire.borrow().transient_kind;
-                let before = self.w.log_len();
                 self.w.read_error_once(k);
-                self.w.settle();
-                let returned = self
-                    .w
-                    .obs_since(before)
-                    .iter()
-                    .any(|o| matches!(o, Ob::Ctx { .. }))
-                    || self.w.wire.borrow().read_err_once.is_some();
-                if returned {
-                    self.m.read_err = true;
-                    self.m.input_arrived();
-                } else {
-                    self.m.hits.push("transient-error-survived");
-                }
+                // (what the client made of it is decided in `sync`, once it has seen the error - which
+                // may be later, if the context task is held back)
+                self.m.transient_pending = true;
             }
             Ev::WriteErr => {
                 self.m.write_err = true;
